@@ -192,6 +192,16 @@ class C07(runner.Prop):
                     ctx.fail('cross_namespace/is_prefix', f'A ns={A.namespace!r} B ns={B2.namespace!r}: is_prefix {got2} {conv}, expected {want2}; A={A} B={B2}')
                 if A.namespace and B2.namespace and A.namespace != B2.namespace:
                     ctx.label('incompatible_namespaces')
+            # (6c) treespecs made with different none_is_leaf settings are never in the prefix relation
+            try:
+                B3 = optree.tree_structure(b, **dict(kw, none_is_leaf=not cfg['nil']))
+                rel3 = (bool(A.is_prefix(B3)), bool(B3.is_prefix(A)), A <= B3, A >= B3, A < B3, bool(A.is_suffix(B3)))
+                if any(rel3):
+                    ctx.fail('cross_none_is_leaf/related', f'{rel3}; A={A} B={B3}')
+            except ValueError:
+                pass          # refusing the comparison outright would be just as good
+            except Exception as e:  # noqa: BLE001
+                ctx.fail('cross_none_is_leaf/raises', f'{type(e).__name__}: {e}')
             # (7) transitivity with a third tree
             if 'c' in case and e2:
                 c = gen.build(case['c'])
